@@ -150,6 +150,7 @@ class Check:
         self.notes = []
         self.gen_info = {}
         self.failed_sigs = []
+        self.extra_prop_files = []
         self.replay_obj = json.loads(Path(replay).read_text()) if replay else None
 
     # ---------------------------------------------------------------- counting
@@ -186,8 +187,14 @@ class Check:
         return True
 
     def prop_files(self):
+        """Props/<pid>.lean, Props/<pid>/*.lean and any extra theorem files of the property (tie lemmas)."""
         base = LEAN / "PgVerif" / "Props"
-        return [base / f"{self.pid}.lean"]
+        fs = []
+        if (base / f"{self.pid}.lean").exists():
+            fs.append(base / f"{self.pid}.lean")
+        fs += sorted((base / self.pid).glob("*.lean")) if (base / self.pid).is_dir() else []
+        fs += [LEAN / x for x in self.extra_prop_files]
+        return fs
 
     def list_theorems(self, files=None):
         """(namespace-qualified) names of theorem declarations in the property files."""
@@ -204,7 +211,7 @@ class Check:
                 if m and ns and ns[-1] == m.group(1):
                     ns.pop()
                     continue
-                m = re.match(r"\s*(?:@\[[^\]]*\]\s*)?(?:private\s+|protected\s+)?theorem\s+(\S+)", line)
+                m = re.match(r"\s*(?:@\[[^\]]*\]\s*)?(?:protected\s+)?theorem\s+(\S+)", line)  # private helpers are not obligations
                 if m:
                     names.append(".".join(ns + [m.group(1)]))
         return names
@@ -392,16 +399,17 @@ def err_class(e):
     }.get(n, "other:" + n)
 
 
-def run_check(pid, tier, seed, replay, body, modules=None, gen=None, level="proof", drivers=()):
+def run_check(pid, tier, seed, replay, body, modules=None, gen=None, level="proof", drivers=(), extra_prop_files=()):
     """Common driver.  body(ck) runs the property-specific part."""
     ck = Check(pid, tier, seed, replay)
+    ck.extra_prop_files = list(extra_prop_files)
     if ck.replay_obj is not None:
         ck.seed = seed = int(ck.replay_obj.get("seed", seed))
         ck.tier = tier = ck.replay_obj.get("tier", tier)
         ck.rng = random.Random(f"{pid}/{seed}")
     try:
         ok = ck.regenerate(gen)
-        mods = modules or [f"PgVerif.Props.{pid}"]
+        mods = modules or [".".join(f.relative_to(LEAN).with_suffix("").parts) for f in ck.prop_files()]
         if ok:
             ok = ck.lake_build(mods + [f"PgVerif.Drv.{d}" for d in drivers])
         if ok:
